@@ -86,10 +86,12 @@ def roundtrip(obj, protocol):
             os.unlink(path)
 
 
-def concept_case(out: Outcome, rng, cls: str, with_cb: bool, protocol: int, thorough: bool) -> None:
+def concept_case(out: Outcome, rng, cls: str, with_cb: bool, protocol: int, thorough: bool, fixed=None) -> None:
     p = gen.rand_params(rng, cls)
     xs = gen.stream_for(rng, cls, rng.randint(8, 80))
     ks = sorted(set([0, len(xs) // 2, len(xs) - 1] + ([rng.randint(0, len(xs) - 1) for _ in range(4)] if thorough else [])))
+    if fixed is not None:
+        p, xs, ks = fixed
     for k in ks:
         cb = [HistoryConceptDrift(name="h")] if with_cb else None
         a = dets.Runner("a", cls, p, callbacks=cb)
@@ -400,6 +402,25 @@ def rejections(out: Outcome) -> None:
         out.case({"reject_protocol": proto})
 
 
+def ring_state_cases(out: Outcome, rng, protos: list, thorough: bool) -> None:
+    """detectors that keep recent values in a RING (RDDM's stored predictions, STEPD's accuracy window, KSWIN's window): saved while the ring has wrapped, while it is being
+    refilled after an event cut it back (first slot not 0, fewer items than slots), and right after events - and continued long enough for the ring to be read again"""
+    def zero_one(pr, n):
+        return [1 if rng.random() < pr else 0 for _ in range(n)]
+    rd_p = {"warning_level": rng.choice([0.9, 1.3]), "drift_level": rng.choice([2.0, 2.5]), "min_num_instances": rng.choice([8, 30]), "min_concept_size": rng.choice([20, 60]),
+            "max_concept_size": rng.choice([150, 40000]), "max_num_instances_warning": rng.choice([10, 1400])}
+    rd_xs = zero_one(0.05, 140) + zero_one(0.6, 90) + zero_one(0.1, 160) + zero_one(0.7, 80) + zero_one(0.05, 130) + zero_one(0.5, 100)
+    st_p = {"alpha_d": 0.003, "alpha_w": 0.05, "min_num_instances": rng.choice([7, 30])}
+    st_xs = [1 - v for v in zero_one(0.1, 100) + zero_one(0.6, 60) + zero_one(0.1, 90)]
+    ks_p = {"alpha": 0.01, "min_num_instances": 24, "num_test_instances": 6}
+    ks_xs = [rng.gauss(0, 1) for _ in range(70)] + [rng.gauss(2.5, 1) for _ in range(50)]
+    for k_c, (cls, p, xs) in enumerate((("RDDM", rd_p, rd_xs), ("STEPD", st_p, st_xs), ("KSWIN", ks_p, ks_xs))):
+        n_pts = 24 if thorough else 12
+        ks = sorted(set(rng.randint(1, len(xs) - 30) for _ in range(n_pts)))
+        concept_case(out, rng, cls, with_cb=False, protocol=protos[(k_c + out.seed) % len(protos)], thorough=thorough, fixed=(p, xs, ks))
+        out.count("ring_state_save_points", len(ks))
+
+
 def run(out: Outcome) -> None:
     rng = rng_for(out.seed, "C15")
     thorough = out.tier == "thorough"
@@ -433,6 +454,7 @@ def run(out: Outcome) -> None:
             if type(l) is not type(cb) or snap(l) != snap(cb):
                 out.violation(f"{type(cb).__name__}: loaded callback differs from the original", {"callback": type(cb).__name__, "protocol": proto})
             out.case({"callback": type(cb).__name__, "protocol": proto})
+    ring_state_cases(out, rng, protos, thorough)
     user_defined_cases(out, rng)
     rejections(out)
     out.traces_validated = out.evaluations
